@@ -171,13 +171,28 @@ class C06Cards(Monitor):
                             self.clean = False
                     return
                 deck = list(s.deck_cards)
+                try:
+                    pool = list(s.get_dealable_cards(len(cs)))
+                except Exception:  # noqa: BLE001
+                    pool = list(deck)
+                dealable = set(pool)
                 for c in cs:
-                    if not c or c not in deck:
+                    if not c:
                         self.exact = False
-                        if c:
-                            self.clean = False
+                    elif c in pool:
+                        pool.remove(c)
+                        if c in deck:
+                            deck.remove(c)
+                        else:
+                            self.exact = False      # taken from the reserve: moved, not duplicated
                     else:
-                        deck.remove(c)
+                        # not among the dealable cards, or named more often than they hold it: pokerkit
+                        # warns (the caller's choice from then on); that it does warn for a repeated
+                        # card is checked after the operation
+                        self.exact = False
+                        self.clean = False
+                        if c in dealable:
+                            self.repeat = True
         self.engine_choice = t[0] in ('burn', 'deal_hole', 'deal_board') and (
             len(t) > 1 and (t[1] == '-' or t[1].startswith('#')))
 
@@ -225,6 +240,11 @@ class C06Cards(Monitor):
         self.prev = self._snap(state)
 
     def after_op(self, sess, line, err, valid):
+        if getattr(self, 'repeat', False):
+            self.repeat = False
+            if err is None and not getattr(sess, 'last_warned', False):
+                self.report('known_no_dup', 'silent_repeat@' + line.split(' ')[0],
+                            f'{line}: a known card named twice was dealt twice without any warning')
         if err is None or type(err).__name__ in REFUSALS:
             self._check(sess.state, 'op:' + line.split(' ')[0])
             self.prev = self._snap(sess.state)
